@@ -168,6 +168,11 @@ func (so *Sorts) strConst(s string) string {
 	if sym, ok := so.strConsts[s]; ok {
 		return sym
 	}
+	if s == "" {
+		so.strConsts[s] = "str.empty"
+		so.strOrder = append(so.strOrder, s)
+		return "str.empty"
+	}
 	clean := strings.Map(func(r rune) rune {
 		if r == '|' || r == '\\' || r < 32 || r > 126 {
 			return '?'
@@ -269,6 +274,10 @@ const basePrelude = `
 (declare-fun str.cat (Str Str) Str)
 (declare-fun hasPrefix (Str Str) Bool)
 (declare-fun str.lt (Str Str) Bool)
+(declare-const str.empty Str)
+(assert (= (str.len str.empty) 0))
+(assert (forall ((s Str)) (! (hasPrefix s str.empty) :pattern ((hasPrefix s str.empty)))))
+(assert (forall ((s Str)) (! (>= (str.len s) 0) :pattern ((str.len s)))))
 (declare-datatypes ((Slice 0)) (((mk_slice (s.arr Int) (s.off Int) (s.len Int) (s.cap Int)))))
 (declare-datatypes ((Iface 0)) (((mk_iface (i.tag Int) (i.val Int)))))
 (declare-fun born (Int) Int)
